@@ -137,13 +137,13 @@ def genConst (reg : Reg) (v : CInt) : M Code :=
       | .A => [lLDAM label]
       | .B => [lLDBM label])
 
-/-- The packing loop of `genString` (2530-2543).  `value[i]` is a `char`: it is sign-extended
-    before the shift (bytes ≥ 0x80 smear into the higher lanes: D15, outside the C01 domain). -/
+/-- The packing loop of `genString` (2530-2543); each byte is converted to unsigned before the
+    shift (repaired D15). -/
 def packGo (n : Nat) : List Byte → Nat → Word → List Word
   | [], _, _ => []
   | c :: rest, idx, packed =>
     let bytePos := (idx + 1) % 4
-    let packed' := packed ||| ((c.signExtend 32 : Word) <<< (bytePos * 8))
+    let packed' := packed ||| ((c.zeroExtend 32 : Word) <<< (bytePos * 8))
     if bytePos = 3 ∨ idx = n - 1 then packed' :: packGo n rest (idx + 1) 0
     else packGo n rest (idx + 1) packed'
 
